@@ -15,7 +15,7 @@ EXPLANATION = (
 NOT_DECIDED = ("that no boundary is skipped/invented, distances within tolerance, finite crossings "
                "(geometric, numeric)")
 
-TECHNIQUE = ("typestate rules on the navigator's CFG: must-pass after every position/direction write, guard dominance on failure edges, cache write/return agreement; enum/flag writer-reader agreement")
+TECHNIQUE = ("typestate rules on the navigator's CFG: must-pass after every position/direction write, guard dominance on failure edges, cache write/read pairing; frame agreement: provenance of the values captured by tracker-visitor lambdas and of vectors carried through the per-level placement transforms")
 
 UNITS = [
     "src/celeritas/geo/detail/BoundaryAction.cc",
